@@ -153,7 +153,12 @@ class UnifiedTypeService:
         # Add modern | None syntax if needed
         # Modern Python 3.10+ uses | None syntax without needing Optional import
         if resolved.is_optional and not python_type.endswith("| None"):
-            python_type = f"{python_type} | None"
+            if python_type.startswith('"') and python_type.endswith('"') and python_type.count('"') == 2:
+                # A quoted forward reference must take the union INSIDE the quotes: `"Node" | None` is evaluated
+                # when the class body runs (str | None -> TypeError), `"Node | None"` stays a lazy annotation.
+                python_type = f'"{python_type[1:-1]} | None"'
+            else:
+                python_type = f"{python_type} | None"
 
             # DEBUG: Check for malformed type strings
             if python_type.count("[") != python_type.count("]"):
